@@ -68,6 +68,10 @@ def main(tier, only=None):
         hs.append(e1.H("h_guard", "guard/sound", unwind=3 * n_guard + 3, defines=("NITEMS=%d" % n_guard, "HK_guard"),
                        replace_calls=("skip_cond_incl2:spec2", "skip_cond_incl:spec1"), flags=NOPTR,
                        timeout=1500 if thorough else 600, desc="files of <= %d lines" % n_guard))
+    if want("cond"):
+        hs.append(e1.H("h_defined", "cond/defined-operand-safe", unwind=12, defines=("NITEMS=4", "HK_defined"),
+                       replace_calls=("find_macro:stub_find_macro", "new_num_token:stub_new_num_token"), timeout=900,
+                       desc="real read_const_expr on every line of <= 4 tokens over {defined ( ) X 1}, pointer checks on"))
     if hs:
         e1.run_set(chk, "c10/cond.c", hs, workers=8)
     if want("search"):
@@ -79,6 +83,8 @@ def main(tier, only=None):
             e1.H("h_include_dquote_two_includers", "search/include-dquote-two-includers", unwind=30, timeout=300, defines=("HK_inc",),
                  replace_calls=("include_file:stub_include_file", "expand_macro:stub_expand_macro")),
             e1.H("h_include_next_after_nested", "search/include-next-per-file", unwind=30, timeout=300, defines=("HK_inc",), object_bits=10,
+                 replace_calls=("include_file:stub_include_file", "expand_macro:stub_expand_macro")),
+            e1.H("h_include_next_outside", "search/include-next-file-outside-include-path", unwind=30, timeout=300, defines=("HK_inc",), object_bits=10,
                  replace_calls=("include_file:stub_include_file", "expand_macro:stub_expand_macro")),
             e1.H("h_include_angle", "search/include-angle", unwind=30, timeout=300, defines=("HK_inc",),
                  replace_calls=("include_file:stub_include_file", "expand_macro:stub_expand_macro")),
